@@ -152,13 +152,15 @@ Definition collapse (m : mstate) : mstate := match m with MPolling => MSleeping 
 (** Correspondence oracle.  The harness drives a real Manager with actions it
     can force deterministically; after each action the goroutines run until
     they block, which in model terms means: a poller waiting for the lock
-    takes it as soon as it is free and then enters OnPoll at once. *)
+    takes it as soon as it is free (it then stops at the scheduling point
+    before OnPoll, where the harness holds it). *)
 Inductive action :=
 | ASleep                (* start a goroutine calling Sleep(); the lock is free *)
 | AWake
 | AFinish (j : nat)     (* let the callback of the j-th requester (in start order) return *)
 | AFire                 (* advance virtual time by the poll interval *)
-| APollEnd (k : nat).   (* let the k-th entered OnPoll callback return (PollDuration is 0) *)
+| AEnter (k : nat)      (* let the k-th poll that passed its first critical section enter OnPoll *)
+| APollEnd (k : nat).   (* let the k-th entered OnPoll callback return (PollDuration elapses) *)
 
 Fixpoint find_index {A} (p : A -> bool) (l : list A) (i : nat) : option nat :=
   match l with
@@ -167,28 +169,32 @@ Fixpoint find_index {A} (p : A -> bool) (l : list A) (i : nat) : option nat :=
   end.
 
 Definition is_poll_wait (p : pc) : bool := match p with PollWaitLock => true | _ => false end.
-Definition is_poll_before (p : pc) : bool := match p with PollBeforeCb _ => true | _ => false end.
 
-(** eager continuation of pollers (bounded by fuel) *)
-Fixpoint settle (gc : bool) (fuel : nat) (s : sys) : sys :=
+(** requesters are the threads created by ASleep / AWake, in order; polls are
+    identified by the order in which they passed their first critical section
+    ([r_started]) and, once inside OnPoll, by the order of their OnPoll entry *)
+Record rstate := mkr { r_sys : sys; r_req : list nat; r_started : list nat }.
+
+(** eager continuation of pollers waiting for the lock (bounded by fuel) *)
+Fixpoint settle (gc : bool) (fuel : nat) (s : sys) (started : list nat) : sys * list nat :=
   match fuel with
-  | O => s
+  | O => (s, started)
   | S f =>
-      match find_index is_poll_before (s_threads s) 0 with
-      | Some t => match exec gc s (Run t) with Some s' => settle gc f s' | None => s end
-      | None =>
-          if lock_free s then
-            match find_index is_poll_wait (s_threads s) 0 with
-            | Some t => match exec gc s (Run t) with Some s' => settle gc f s' | None => s end
-            | None => s
+      if lock_free s then
+        match find_index is_poll_wait (s_threads s) 0 with
+        | Some t =>
+            match exec gc s (Run t) with
+            | Some s' =>
+                settle gc f s' (match nth_error (s_threads s') t with Some (PollBeforeCb _) => started ++ [t] | _ => started end)
+            | None => (s, started)
             end
-          else s
-      end
+        | None => (s, started)
+        end
+      else (s, started)
   end.
 
-(** requesters are the threads created by ASleep / AWake, in order; pollers
-    that entered OnPoll are identified by the order of their OnPoll log entry *)
-Record rstate := mkr { r_sys : sys; r_req : list nat (* tids of requesters, oldest first *) }.
+Definition settled (gc : bool) (s : sys) (r : rstate) (req : list nat) : rstate :=
+  let '(s', st) := settle gc 8 s (r_started r) in mkr s' req st.
 
 Definition nth_poll_cb (s : sys) (k : nat) : option nat :=
   nth_error (map fst (filter (fun e => match snd e with OnPoll => true | _ => false end) (s_log s))) k.
@@ -200,14 +206,14 @@ Definition act (gc : bool) (r : rstate) (a : action) : option rstate :=
       match exec gc s NewSleep with
       | Some s1 => let tid := length (s_threads s) in
                    match exec gc s1 (Run tid) with
-                   | Some s2 => Some (mkr (settle gc 8 s2) (r_req r ++ [tid]))
+                   | Some s2 => Some (settled gc s2 r (r_req r ++ [tid]))
                    | None => None end
       | None => None end
   | AWake =>
       match exec gc s NewWake with
       | Some s1 => let tid := length (s_threads s) in
                    match exec gc s1 (Run tid) with
-                   | Some s2 => Some (mkr (settle gc 8 s2) (r_req r ++ [tid]))
+                   | Some s2 => Some (settled gc s2 r (r_req r ++ [tid]))
                    | None => None end
       | None => None end
   | AFinish j =>
@@ -215,21 +221,30 @@ Definition act (gc : bool) (r : rstate) (a : action) : option rstate :=
       | Some tid =>
           match nth_error (s_threads s) tid with
           | Some SleepInCb | Some WakeInCb =>
-              match exec gc s (Run tid) with Some s1 => Some (mkr (settle gc 8 s1) (r_req r)) | None => None end
+              match exec gc s (Run tid) with Some s1 => Some (settled gc s1 r (r_req r)) | None => None end
           | _ => None
           end
       | None => None end
   | AFire =>
       match exec gc s Fire with
-      | Some s1 => Some (mkr (settle gc 8 s1) (r_req r))
+      | Some s1 => Some (settled gc s1 r (r_req r))
       | None => Some r     (* no timer armed: advancing time does nothing *)
       end
+  | AEnter k =>
+      match nth_error (r_started r) k with
+      | Some tid =>
+          match nth_error (s_threads s) tid with
+          | Some (PollBeforeCb _) =>
+              match exec gc s (Run tid) with Some s1 => Some (settled gc s1 r (r_req r)) | None => None end
+          | _ => None
+          end
+      | None => None end
   | APollEnd k =>
       match nth_poll_cb s k with
       | Some tid =>
           match nth_error (s_threads s) tid with
           | Some (PollInCb _) =>
-              match exec gc s (Run tid) with Some s1 => Some (mkr (settle gc 8 s1) (r_req r)) | None => None end
+              match exec gc s (Run tid) with Some s1 => Some (settled gc s1 r (r_req r)) | None => None end
           | _ => None
           end
       | None => None end
@@ -244,8 +259,9 @@ Definition res_code (p : pc) : N :=
   end%N.
 
 (** observed after an action: GetState(), state in the file, callback log,
-    results of the requesters (0 = still inside its callback), file writes *)
-Record mobs := mkmobs { mo_state : N; mo_persist : N; mo_log : list N; mo_results : list N; mo_writes : N }.
+    results of the requesters (0 = still inside its callback), file writes,
+    number of polls that have passed their first critical section *)
+Record mobs := mkmobs { mo_state : N; mo_persist : N; mo_log : list N; mo_results : list N; mo_writes : N; mo_started : N }.
 
 Fixpoint list_N_eqb (a b : list N) : bool :=
   match a, b with
@@ -260,7 +276,8 @@ Definition obs_ok (r : rstate) (o : mobs) : bool :=
   N.eqb (mstate_code (s_persist s)) (mo_persist o) &&
   list_N_eqb (map (fun e => cb_code (snd e)) (s_log s)) (mo_log o) &&
   list_N_eqb (map (fun tid => match nth_error (s_threads s) tid with Some p => res_code p | None => 9%N end) (r_req r)) (mo_results o) &&
-  N.eqb (s_writes s) (mo_writes o).
+  N.eqb (s_writes s) (mo_writes o) &&
+  N.eqb (N.of_nat (length (r_started r))) (mo_started o).
 
 Fixpoint replay_ok (gc : bool) (r : rstate) (l : list (action * mobs)) : bool :=
   match l with
@@ -274,7 +291,7 @@ Fixpoint replay_ok (gc : bool) (r : rstate) (l : list (action * mobs)) : bool :=
 
 Definition mcase := list (action * mobs).
 
-Definition mcase_ok (c : mcase) : bool := replay_ok true (mkr init []) c.
+Definition mcase_ok (c : mcase) : bool := replay_ok true (mkr init [] []) c.
 
 Fixpoint mmismatches_from (i : N) (cs : list mcase) : list N :=
   match cs with
@@ -283,3 +300,37 @@ Fixpoint mmismatches_from (i : N) (cs : list mcase) : list N :=
   end.
 
 Definition mismatches (cs : list mcase) : list N := mmismatches_from 0%N cs.
+
+(** ------------------------------------------------------------------ *)
+(** Agent level: agent.doPoll, the OnPoll callback, ends with
+      if sleepMgr.GetState() == AWAKE { return }     (no lock)
+      peerMgr.DisconnectAll()
+    Two atomic steps of the callback's goroutine against a Wake that is one
+    atomic step here (its two halves hold the lock, which doPoll does not take). *)
+Inductive dstep := DReadState | DDisconnect | DWakeCompletes.
+Inductive devent := EvWakeCompleted | EvDisconnectAll.
+
+Record dsys := mkd { d_state : mstate; d_saw_asleep : option bool; d_events : list devent }.
+
+Definition dexec (s : dsys) (st : dstep) : option dsys :=
+  match st with
+  | DReadState =>
+      match d_saw_asleep s with
+      | None => Some (mkd (d_state s) (Some (negb (mstate_eqb (d_state s) MAwake))) (d_events s))
+      | Some _ => None
+      end
+  | DDisconnect =>
+      match d_saw_asleep s with
+      | Some true => Some (mkd (d_state s) (Some false) (d_events s ++ [EvDisconnectAll]))
+      | _ => None
+      end
+  | DWakeCompletes =>
+      if mstate_eqb (d_state s) MAwake then None
+      else Some (mkd MAwake (d_saw_asleep s) (d_events s ++ [EvWakeCompleted]))
+  end.
+
+Fixpoint drun (s : dsys) (tr : list dstep) : option dsys :=
+  match tr with
+  | [] => Some s
+  | st :: r => match dexec s st with Some s' => drun s' r | None => None end
+  end.
